@@ -25,6 +25,7 @@ ALG4 = ("randomQ", "cube4D", "fulldiv")
 ZERO = {"o": "zero3D", "b": "zero4D"}
 DEFAULT = {"o": "ico", "b": "cube4D"}
 ALL_ALGS = ALG3 + ALG4 + ("zero3D", "zero4D")
+FILLER = ["none", "None", "foo", "x1", "Ico", "junk"]     # fragments that are neither a number nor an algorithm name
 TOKENS = list(ALG3 + ALG4) + ["zero3D", "zero4D", "zero", "0", "1", "2", "5", "12", "007", "-3", "none", "None", "foo", "", "Ico", "x1"]
 
 
@@ -159,7 +160,9 @@ def drive(GNP, F3, F4, name, role, build=True):
 def shards(tier, seed):
     L = 3 if tier == "quick" else 4
     nsh = 4 if tier == "quick" else 16
-    return [{"L": L, "nshards": nsh, "shard": i} for i in range(nsh)] + [{"kind": "repo_tests", "modules": ["tests/test_parsers.py"]}]
+    longer = 4000 if tier == "quick" else 20000
+    return ([{"L": L, "nshards": nsh, "shard": i, "longer": longer, "rseed": seed * 100 + i} for i in range(nsh)]
+            + [{"kind": "repo_tests", "modules": ["tests/test_parsers.py"]}])
 
 
 def run_shard(spec):
@@ -178,6 +181,18 @@ def run_shard(spec):
             name = "_".join(toks)
             for role in ("o", "b"):
                 drive(GNP, F3, F4, name, role)
+    # beyond the exhaustive length: sampled names of L+1 .. L+4 tokens (a parser that looks only at the first fragments is exact below)
+    import random
+    rng = random.Random(spec.get("rseed", 0))
+    for _ in range(spec.get("longer", 0)):
+        toks = [rng.choice(TOKENS) for _ in range(rng.randint(spec["L"] + 1, spec["L"] + 4))]
+        if rng.random() < 0.5:
+            # mostly filler, so that names with exactly one number / one algorithm (accepted ones) are frequent among the long names
+            keep = set(rng.sample(range(len(toks)), rng.randint(1, 2)))
+            toks = [t if k in keep else rng.choice(FILLER) for k, t in enumerate(toks)]
+        name = "_".join(toks)
+        for role in ("o", "b"):
+            drive(GNP, F3, F4, name, role)
 
 
 def replay(case):
